@@ -6,6 +6,7 @@
  *   S <id> <prefix hex|-> <mask hex> <target hex>
  *                                         define key <id> = prefix + searched suffix such that the REAL hash
  *                                         (mapkey) satisfies hash & mask == target; prints "S <id> <hex> <hash>"
+ *   P <id> <tail hex> <mask hex> <target hex>   as S, but the key is 'v' + searched part + tail
  *   B <id> <len> <seed> <mask hex> <target hex>
  *                                         long key: <len> pseudo-random bytes, last 8 searched as for S
  *   R <cap> <op>...                       replay a history on a fresh table; ops: p<id>,<v> (v = k: keep,
@@ -23,6 +24,8 @@
 #include <stdio.h>
 #include <stdlib.h>
 #include <string.h>
+#include <signal.h>
+#include <unistd.h>
 #include "util.h"
 
 char *argv0 = "cmap";
@@ -91,22 +94,31 @@ static const char alphabet[] = "abcdefghijklmnopqrstuvwxyz0123456789_ABCDEFGHIJK
 
 /* search a suffix over the identifier alphabet such that the real hash has the wanted low bits */
 static void
-search(long id, const unsigned char *prefix, size_t plen, unsigned long mask, unsigned long target)
+search(long id, const unsigned char *prefix, size_t plen, unsigned long mask, unsigned long target, bool front)
 {
 	struct key *k = keyslot(id);
-	unsigned char *b = keymem(k, id, plen + 12);
+	unsigned char *b = keymem(k, id, plen + 13);
+	unsigned char var[12];
 	size_t slen;
 	unsigned long long ctr;
 
-	memcpy(b, prefix, plen);
 	for (ctr = 0;; ++ctr) {
 		unsigned long long c = ctr;
 		slen = 0;
-		do { b[plen + slen++] = alphabet[c % 63]; c /= 63; } while (c && slen < 11);
+		do { var[slen++] = alphabet[c % 63]; c /= 63; } while (c && slen < 11);
+		if (front) {          /* 'v' + searched part + fixed tail: names that differ only near the start */
+			b[0] = 'v';
+			memcpy(b + 1, var, slen);
+			memcpy(b + 1 + slen, prefix, plen);
+			++slen;
+		} else {
+			memcpy(b, prefix, plen);
+			memcpy(b + plen, var, slen);
+		}
 		mapkey(&k->k, b, plen + slen);
 		if ((k->k.hash & mask) == target)
 			break;
-		if (ctr > 4000000000ull) fatal("search failed");
+		if (ctr > 400ull * (mask + 1) + 100000) fatal("SEARCH-FAILED: no suffix gives hash & %lx == %lx (is the hash still a function of all bytes?)", mask, target);
 	}
 	printf("S %ld ", id);
 	if (plen + slen <= 256) puthex(b, plen + slen); else printf("(%zu bytes)", plen + slen);
@@ -186,6 +198,9 @@ replay(char *p, bool log)
 	mapfree(&m, NULL);
 }
 
+/* watchdog: a keyindex loop that never finds a free slot would spin forever */
+static void onalarm(int sig) { (void)sig; static const char m[] = "\nHANG\n"; if (write(1, m, sizeof m - 1) < 0) {} _exit(4); }
+
 int
 main(void)
 {
@@ -193,7 +208,10 @@ main(void)
 	size_t lcap = 0;
 	ssize_t n;
 
+	signal(SIGALRM, onalarm);
 	while ((n = getline(&line, &lcap, stdin)) > 0) {
+		fflush(stdout);
+		alarm(60);
 		if (line[0] == 'K') {
 			long id; char *hex = xmalloc(n), hs[64];
 			if (sscanf(line + 1, "%ld %s %63s", &id, hex, hs) != 3) fatal("bad K");
@@ -204,13 +222,13 @@ main(void)
 			if (strcmp(hs, "-") == 0) mapkey(&k->k, b, len);
 			else { k->k.str = b; k->k.len = len; k->k.hash = strtoul(hs, NULL, 16); }
 			free(hex);
-		} else if (line[0] == 'S') {
+		} else if (line[0] == 'S' || line[0] == 'P') {
 			long id; char *hex = xmalloc(n); unsigned long mask, target;
 			if (sscanf(line + 1, "%ld %s %lx %lx", &id, hex, &mask, &target) != 4) fatal("bad S");
 			size_t len = unhex(hex, NULL);
 			unsigned char *b = xmalloc(len);
 			unhex(hex, b);
-			search(id, b, len, mask, target);
+			search(id, b, len, mask, target, line[0] == 'P');
 			free(b); free(hex);
 		} else if (line[0] == 'B') {
 			long id; size_t len; unsigned long seed, mask, target;
@@ -218,7 +236,7 @@ main(void)
 			unsigned char *b = xmalloc(len);
 			unsigned long long x = seed * 2654435761u + 1;
 			for (size_t i = 0; i < len; ++i) { x = x * 6364136223846793005ull + 1442695040888963407ull; b[i] = x >> 56; }
-			search(id, b, len, mask, target);
+			search(id, b, len, mask, target, false);
 			free(b);
 		} else if (line[0] == 'R') {
 			replay(line + 1, false);
